@@ -124,7 +124,7 @@ fn alg_comp(u: &mut Unstructured) -> arbitrary::Result<u64> {
 }
 
 fn alg_leaf(u: &mut Unstructured, pool: &[MVersion]) -> arbitrary::Result<Expr> {
-    if u.ratio(1, 25)? {
+    if u.ratio(1, 25)? && crate::gen::ranges::any_leaf_usable() {
         return Ok(Expr::Any);
     }
     let n = pool.len();
